@@ -25,6 +25,9 @@
 (*           build_step                                                            *)
 (*   cdeps : earlier targets passed as extra_compile_deps= of a linked target: EVERY object of    *)
 (*           the target depends on them (not its precompiled header)              *)
+(*   vlib  : TRUE for a program / shared / dual-use library that links the pre-built library      *)
+(*           libv1.a of the source tree (static_library('libv1.a'), no sources): its link step    *)
+(*           (both link steps of a dual-use library) consumes that file                           *)
 (*   hdr   : TRUE for a linked target compiled with includes=[header_file('h2.h')]: every       *)
 (*           object (and the precompiled header) of the target depends on h2.h     *)
 (*   pch   : TRUE for a linked target compiled with pch='pch_<name>.h': bfg9000    *)
@@ -59,7 +62,7 @@ Includes(f) == IF f \in {"s1", "s2"} THEN {"h1"} ELSE {}
 PchFile(nm) == "pch_" \o nm
 DirectFiles(d) == LET fs == FilesOf(d.srcs) \cup FilesOf(d.ins) IN
                   fs \cup UNION { Includes(f) : f \in fs } \cup (IF d.pch THEN {PchFile(d.name)} ELSE {})
-                     \cup (IF d.hdr THEN {"h2"} ELSE {})
+                     \cup (IF d.hdr THEN {"h2"} ELSE {}) \cup (IF d.vlib THEN {"v1"} ELSE {})
 
 \* libraries whose requirements a static library forwards to whoever links it
 RECURSIVE Forward(_, _)
